@@ -63,6 +63,8 @@ def worlds(tier):
             if tier != "quick":
                 ws.append({"name": f"queue-deep-k{k}-retime{j}", "kind": "queue", "k": k, "script": alladd + [("R", j)], "nty": 1,
                            "weight": 40 * k, "split": 6, "plain": True})
+    # six insertions with symbolic times and nothing else: every relative order of the times, no repair by a later remove / re-time
+    ws.append({"name": "queue-deep-k6-insertions-only", "kind": "queue", "k": 6, "script": [("A", i) for i in range(6)], "nty": 1, "weight": 300, "split": 9, "plain": True})
     return ws
 
 
